@@ -9,15 +9,19 @@ def local_variant(q):
 # the step contract with the operation decoded from exec's temporary script (local_script != nullptr), for a representative
 # of every structural class of opcode: push, small int, control, alt stack, stack shuffles, numeric, hash, code separator, bad, unexecuted
 PICK = r'step_(push|smallint|if_63|else_endif_67|verify_69|toalt_6b|fromalt_6c|2dup_6e|2rot_71|dup_76|swap_7c|size_82|equal_88|unary_8b|addsub_93|within_a5|hash_a9|codesep_ab|cltv_b1|badop|disabled_gate|unexecuted)$'
-QUERIES = [L.EVAL] + [local_variant(q) for q in C01.QUERIES if q.tier == 'quick' and re.match(PICK, q.name)]
+from props import units_main as UM
+PARSE = Query('exec_token_parser', 'harness', UM.unit_eval_parse, 'h_evalparse', defines=['VERIF_ITEM_CAP=16', 'VERIF_SCRIPT_CAP=26', 'VERIF_TOKEN_CAP=5'], unwind=30, timeout=2400, object_bits=10,
+              functions=['instance.cpp: Instance::eval (token parser: number / hex / opcode classification and assembly)', 'util/strencodings.cpp: TryHex, HexDigit, p_util_hexdigit', 'script/script.h: CScript push encoders'],
+              bounded='one token of at most 5 characters without whitespace; atoi / snprintf("%d") are assumed libc models (stubs/libc_num.h); GetOpCode is an oracle')
+QUERIES = [L.EVAL, PARSE] + [local_variant(q) for q in C01.QUERIES if q.tier == 'quick' and re.match(PICK, q.name)]
 META = {'level': 'proof', 'trusted_base': TRUSTED,
  'assumptions': ASSUME_COMMON + [
-   "token parser of exec (atoi / snprintf / TryHex / GetOpCode) is outside the verifier's reach: not applicable part, the operation list is taken as an already assembled script",
+   "token parser of exec: decided for single tokens of at most 5 characters with ASSUMED models of atoi and snprintf(\"%d\") (stubs/libc_num.h) and GetOpCode as an oracle; the real TryHex is in the unit; longer tokens and the name table of GetOpCode are not covered",
    "exec loop: the interpreter step is its contract; lists of at most 6 encoded bytes (bounded); per-operation semantics: the C01 step contract re-proved with the operation decoded from a separate script object",
  ],
  'explanation': 'frame and exception contract of the execution loop of Instance::eval + the L1 step contract with local_script substitution'}
 MANIFEST = {
  'text': 'exec: (a) the real StepScript, called with the operation decoded from exec\'s temporary script, meets the same per-opcode consensus contract as for the debugged script (same stack, alt stack, conditional state, errors) and does not touch the debugged script or its position; (b) the execution loop of Instance::eval leaves position, remaining script, marker, phase, rewind histories and the signed-code start untouched, lets no interpreter exception escape and executes each listed operation at most once.',
- 'note': 'The token parser of exec is not applicable (libc string functions). Loop proved for lists up to 6 encoded bytes with the step as contract.',
+ 'note': 'Token parser: bounded (tokens <= 5 chars, assumed libc models, opcode-name lookup as oracle). Loop proved for lists up to 6 encoded bytes with the step as contract.',
  'technique': 'assume/assert contracts with frame conditions on the real StepScript (local_script variant) and on the loop of Instance::eval with the callee replaced by its contract; CBMC',
  'design_ref': 'DESIGN.md 6 (C16)'}
